@@ -8,6 +8,28 @@ import sys
 HERE = os.path.dirname(os.path.dirname(os.path.abspath(__file__)))
 sys.path[:0] = [HERE, os.environ.get('VERIF_REPO', '/repo')]
 
+TECHNIQUE = {
+ 'C01': 'runtime monitoring: boundary monitor on bytes/bin/hex/len/from_bytes/from_hex + ride-along codec monitor, independent MIDI 1.0 reference encoder, exhaustive enumeration of the non-sysex space',
+ 'C02': 'runtime monitoring: boundary monitor on from_bytes/from_hex, reference acceptor + exception-class contract, exhaustive enumeration of all strings of length <= 3, perturbation sequences',
+ 'C03': 'runtime monitoring: invariant monitor (independent validity predicate + before/after snapshots) round every checked entry point, grid + assignment histories with a shadow model',
+ 'C04': 'runtime monitoring: relational monitor on parse_all/feed/feed_byte (totality, validity, real-time exactly-once, position-exact subsequence), exhaustive class-alphabet strings + size ladders',
+ 'C05': 'runtime monitoring: shadow-parser monitor (byte-at-a-time twin) + FIFO/pending counter model over all cuts, container types and retrieval interleavings',
+ 'C06': 'runtime monitoring: relational monitor parse(P+enc(M)) == parse(P)+[M] with the reference encoder, all prefixes x boundary messages, split feeds, nested calls',
+ 'C07': 'runtime monitoring: monitor at save/load with an independent end_of_track folding model, save-must-raise table, byte-mutation fixed-point checks',
+ 'C08': 'runtime monitoring: bytes of save() parsed by an independent strict SMF reference decoder; alternative legal encodings from a reference encoder loaded under clip/debug/header-size configurations',
+ 'C09': 'runtime monitoring: boundary monitor on MetaMessage()/bytes/from_bytes and the track reader against an independent meta reference codec, exhaustive finite domains',
+ 'C10': 'runtime monitoring: recorded client-boundary histories + wire log under a deterministic line-granularity thread scheduler (sys.monitoring), bounded-preemption enumeration + random/PCT schedules + free-running stress, offline history checker',
+ 'C11': 'runtime monitoring: device-double event log + sequential lifecycle model over all operation sequences and device self-close positions, sleep-count bounded progress, scheduler for overlapping close/send',
+ 'C12': 'runtime monitoring: boundary monitor on merge_tracks/merged_track with an independent absolute-time merge model and input snapshots, re-merge histories',
+ 'C13': 'runtime monitoring: monitor on iter/length/play with a virtual clock and recorded sleeps, exact rational tempo-map oracle, consumer-delay patterns',
+ 'C14': 'runtime monitoring: boundary monitor on str/from_str/dict/from_dict/repr/parse_string(_stream): round-trip equality, invalid-text grammar classes, line-numbered stream model',
+ 'C15': 'runtime monitoring: boundary monitor on copy/freeze/thaw/hash: fresh-construction equivalence, aliasing snapshots, hash/dict-key checks on independently built twins',
+ 'C16': 'runtime monitoring: differential monitor - every observation on an edited MidiFile compared with the same observation on a freshly built twin, over random edit/observe histories',
+ 'C17': 'runtime monitoring + fault injection: default-charset probe after every load/save, payload bytes via reference SMF decoder, faults at every byte/read/write/message and at every executed line (sys.monitoring failpoints)',
+ 'C18': 'runtime monitoring: real stream sockets (socketpair, TCP loopback, forked peer killed with SIGKILL), every cut offset x segmentation, delivery log against the known stream, sleep-count bounds',
+ 'C19': 'runtime monitoring: boundary monitor on write_syx_file/read_syx_file with real temporary files against a filter-and-preserve model, whitespace layouts, invalid texts, call sequences',
+ 'C20': 'runtime monitoring: call/import log of recording fake backend modules against an independent precedence model over the complete configuration grid, set_backend and environment sequences',
+}
 props = [json.loads(line) for line in open(os.path.join(HERE, 'properties.jsonl'))]
 checks, na = [], []
 for p in props:
@@ -31,7 +53,7 @@ for p in props:
             'design_ref': f'DESIGN.md section 3, {pid}',
         },
         'level_note': mf.get('note', '; '.join(mod.ASSUMPTIONS)),
-        'technique': mf.get('technique', 'runtime monitoring: boundary monitor + reference oracle over generated workloads'),
+        'technique': mf.get('technique', TECHNIQUE[pid]),
     })
 manifest = {
     'version': 1,
